@@ -13,9 +13,16 @@ for f in sorted(glob.glob(os.path.join(V, 'seeded', '*', 'meta.json'))):
             if l.startswith('VIOLATION'):
                 o = [x for x in l.split() if x.startswith('obligation=')]
                 if o: obl.append(o[0][11:])
-    rows.append((sid, m.get('property'), m.get('confirmed_by_us', {}).get('ok'), m.get('checks_run'), m.get('detected_by'), sorted(set(obl)), (m.get('summary') or '')[:160]))
+    rows.append((sid, m.get('property'), m.get('confirmed_by_us', {}).get('ok'), m.get('checks_run'), m.get('detected_by'), sorted(set(obl)), (m.get('summary') or '')[:160], m.get('note')))
 with open(os.path.join(V, 'seeded', 'SUMMARY.md'), 'w') as out:
     out.write('# Seeded changes and which checks catch them\n\n| id | property | confirmed | checks run (exit) | detected by | failed obligations | change |\n|---|---|---|---|---|---|---|\n')
     for r in rows:
         out.write('| %s | %s | %s | %s | %s | %s | %s |\n' % (r[0], r[1], r[2], ' '.join('%s:%s' % kv for kv in (r[3] or {}).items()), ' '.join(r[4] or []) or '**none**', ' '.join(r[5]), r[6].replace('|', '/')))
+    notes = [r for r in rows if r[7]]
+    if notes:
+        out.write('\n## Notes\n\n')
+        for r in notes:
+            out.write('* **%s**: %s\n' % (r[0], r[7]))
+    n_det = sum(1 for r in rows if r[4])
+    out.write('\n%d changes, %d detected (exit 1 with a VIOLATION line by at least one of the checks run), %d not detected.\n' % (len(rows), n_det, len(rows) - n_det))
 print(open(os.path.join(V, 'seeded', 'SUMMARY.md')).read())
